@@ -83,4 +83,13 @@ pub open spec fn declared_fields_placed(reg0: &TypeRegistry, scope: Seq<ItemPath
     exists|pending: Seq<(Option<usize>, Region)>| #![trigger placement_exists(pending, out, reg)]
         fields_built(reg0, scope, stmts, stmts.len() as int, pending) && placement_exists(pending, out, reg)
 }
+
+/// C06 for one accepted type: the vftable recorded for it is the one prescribed for its own vftable block
+/// (present iff the description starts with one) and the first `#[base]` among its declared fields
+pub open spec fn build_vftable_ok(reg0: &TypeRegistry, scope: Seq<ItemPath>, stmts: Seq<TypeStatement>, reg: &TypeRegistry, p: ItemPath,
+                                  vft: Option<TypeVftable>, out: Seq<Region>) -> bool {
+    exists|pending: Seq<(Option<usize>, Region)>, own: Option<Vec<Function>>| #![trigger vftable_of_first_base(reg, p, pending, own, vft, out)]
+        fields_built(reg0, scope, stmts, stmts.len() as int, pending) && (own is Some <==> first_is_vftable(stmts))
+        && vftable_of_first_base(reg, p, pending, own, vft, out)
+}
 }
